@@ -57,6 +57,19 @@ CHECKS = {
              "variable names, escape sequences, format verbs other than %s/%%. One known finding (Dart $var followed by an identifier-like delimiter).",
         technique="Coq generator+evaluator model, induction over prefix segments, trace validation against compiler output and compiled generated code",
         design="5/C08"),
+    "C10": dict(
+        text="Coq theorems about an executable model of the parser (the pigeon grammar REGENERATED from grammar.peg.go on every build, a "
+             "pigeon-semantics interpreter, the 44 semantic actions): termination on every input from a verified well-formedness check; "
+             "fuel-independence; Thrift enum numbering; identifier, integer-constant and scope-prefix round trips; parse(render m)=m proved "
+             "end to end for typedef and enum declarations in all blank / line-break / separator styles (partial: other declaration kinds rest "
+             "on correspondence). The full round trip is refuted on the code by seven proved witnesses (known findings). Tied to the real parser "
+             "on every run: every generated text and program is parsed by both, parse trees and error lists must be equal, alongside a "
+             "model-free oracle and the -gen json descriptor as a second view.",
+        note="Trusted: Coq kernel + vm_compute; the go/ast translator of the grammar literal (counts re-checked in Coq); hand transcription of the action bodies "
+             "and of strconv.Unquote/ParseInt/ParseFloat, strings.*, filepath.Base, two regexps (validated by correspondence only); harness as test equipment. "
+             "Error line/column not modelled. Eleven parser defects are known findings.",
+        technique="PEG interpreter model + regenerated grammar + verified wf checker + correspondence judge",
+        design="5/C10"),
     "C11": dict(
         text="Partial proof: Coq theorems over all inputs: after validation (incl. the new circular-typedef check) every typedef chain of a "
              "file and its includes resolves within |typedefs|+|files| steps; IsStruct and the Go wire-type classification cannot hit a nil "
